@@ -17,6 +17,24 @@ pub fn dict() -> &'static Vec<String> {
     })
 }
 
+/// the strings / numbers of the source that the PINNED tree does not have: what a change introduced
+pub fn dict_new() -> &'static Vec<String> {
+    static D: std::sync::OnceLock<Vec<String>> = std::sync::OnceLock::new();
+    D.get_or_init(|| {
+        std::env::var("FPVERIF_DICT").ok().and_then(|p| std::fs::read_to_string(format!("{}.new", p)).ok())
+            .map(|t| t.lines().filter_map(|l| serde_json::from_str::<String>(l).ok()).filter(|w| !w.is_empty() && !w.contains('\0')).collect())
+            .unwrap_or_default()
+    })
+}
+pub fn numdict_new() -> &'static Vec<usize> {
+    static D: std::sync::OnceLock<Vec<usize>> = std::sync::OnceLock::new();
+    D.get_or_init(|| {
+        std::env::var("FPVERIF_DICT").ok().and_then(|p| std::fs::read_to_string(format!("{}.nums.new", p)).ok())
+            .map(|t| t.lines().filter_map(|l| l.trim().parse::<usize>().ok()).collect())
+            .unwrap_or_default()
+    })
+}
+
 pub const BLANKS: &[&str] = &[" ", "\t", "\n", "\r", "  ", "\r\n", " \t "];
 
 pub fn numdict() -> &'static Vec<String> {
@@ -640,6 +658,81 @@ pub fn rand_chain(rng: &mut Rng, n: usize) -> Expression {
         op(Operator::And(balanced(&items[..mid]), balanced(&items[mid..])))
     }
     balanced(&items)
+}
+
+/// the ladder of sizes used wherever an input has a SIZE (depth, length, count): the usual limits and their
+/// neighbours, plus every integer literal of the source of the code under test (and +-1) in range
+pub const STD_LADDER: &[usize] = &[8, 16, 20, 30, 32, 33, 39, 40, 41, 47, 48, 49, 50, 63, 64, 65, 80, 81, 100, 127, 128, 129, 150, 151, 192, 193, 200, 240, 255, 256,
+                                 257, 300, 500, 511, 512, 513, 1000, 1023, 1024, 1025, 2047, 2048, 2049, 4095, 4096, 4097, 5000];
+pub fn ladder(lo: usize, hi: usize) -> Vec<usize> {
+    let mut v: Vec<usize> = STD_LADDER.to_vec();
+    for n in numdict() { if let Ok(x) = n.parse::<usize>() { v.push(x); } }
+    for x in numdict_new() { v.push(*x); }
+    v.retain(|x| *x >= lo && *x <= hi);
+    v.sort();
+    v.dedup();
+    v
+}
+
+/// DEEP trees (the depth is the point; few distinct resources): right-nested groups with the only action at the
+/// bottom, left-deep rule lists whose FIRST rule alone needs framed output, chains of negations, and the same
+/// without any action.  `shape` names the family, `d` the depth.
+pub fn spine_trees(depths: &[usize], exotic: bool) -> Vec<(String, usize, Expression)> {
+    use Expression as E;
+    let name = |i: usize| E::Test(Test::Name(["g", "h*", "leaf"][i % 3].to_string()));
+    let nl = || vec![FormatElement::Field(FormatField::NameWithoutStartingPoint), FormatElement::Special(FormatSpecial::Newline)];
+    let nonl = || vec![FormatElement::Field(FormatField::NameWithoutStartingPoint), FormatElement::Special(FormatSpecial::Null)];
+    let mut out = vec![];
+    for &d in depths {
+        for (k, bottom) in [E::Action(Action::Print), E::Action(Action::Quit), E::Action(Action::FilePrint("o".into())), E::Test(Test::True),
+                            op(Operator::Not(E::Action(Action::Print)))].into_iter().enumerate() {
+            // right-nested: g -o ( h -o ( leaf -o ( ... bottom ) ) )   and with -a / ,
+            let mut t = op(Operator::And(name(2), bottom.clone()));
+            for i in 0..d { t = match (k + i) % 3 { 0 => op(Operator::Or(name(i), t)), 1 => op(Operator::Or(op(Operator::And(name(i), E::Test(Test::False))), t)), _ => op(Operator::List(name(i), t)) }; }
+            out.push((format!("right-{}", k), d, t));
+        }
+        for (k, first) in [E::Action(Action::PrintNull), E::Action(Action::PrintFormatted(nonl())), E::Action(Action::FilePrint("big.txt".into())),
+                           E::Action(Action::PrintFormatted(nl())), E::Action(Action::Print)].into_iter().enumerate() {
+            // left-deep rule list: rule1 -o rule2 -o ... ; only the FIRST rule's action decides the mode
+            let mut t = op(Operator::And(name(0), first.clone()));
+            for i in 1..d { t = op(Operator::Or(t, op(Operator::And(name(i), E::Action(Action::Print))))); }
+            out.push((format!("rules-{}", k), d, t));
+            // left-deep AND chain of tests that always hold, the only action first
+            let mut t = first.clone();
+            for i in 1..d { t = op(Operator::And(t, op(Operator::Or(name(i), E::Test(Test::True))))); }
+            out.push((format!("and-{}", k), d, t));
+        }
+        for (k, bottom) in [E::Action(Action::Print), E::Test(Test::True), E::Action(Action::FilePrintNull("z".into()))].into_iter().enumerate() {
+            let mut t = bottom.clone();
+            for i in 0..d { t = if exotic && i % 5 == 4 { op(Operator::Precedence(t)) } else { op(Operator::Not(t)) }; }
+            out.push((format!("not-{}", k), d, t));
+        }
+    }
+    out
+}
+
+/// deep programs for the concurrency check (every test holds for every file, so every action fires): a rule list
+/// whose FIRST rule prints and fails, followed by d-1 rules that print a line; an AND chain with the first action in
+/// front of d-1 tests and a final -print
+pub fn spine16(depths: &[usize]) -> Vec<(String, usize, Expression)> {
+    use Expression as E;
+    let any = || E::Test(Test::Name("*".to_string()));
+    let nl = || vec![FormatElement::Field(FormatField::NameWithoutStartingPoint), FormatElement::Special(FormatSpecial::Newline)];
+    let nonl = || vec![FormatElement::Field(FormatField::NameWithoutStartingPoint), FormatElement::Special(FormatSpecial::Null)];
+    let mut out = vec![];
+    for &d in depths {
+        for (k, first) in [E::Action(Action::PrintNull), E::Action(Action::PrintFormatted(nonl())), E::Action(Action::FilePrint("A".into())),
+                           E::Action(Action::PrintFormatted(nl()))].into_iter().enumerate() {
+            let mut t = op(Operator::And(op(Operator::And(any(), first.clone())), E::Test(Test::False)));
+            for _ in 1..d { t = op(Operator::Or(t, op(Operator::And(any(), E::Action(Action::Print))))); }
+            out.push((format!("rules16-{}", k), d, t));
+            let mut t = first.clone();
+            for _ in 1..d { t = op(Operator::And(t, op(Operator::Or(any(), E::Test(Test::True))))); }
+            t = op(Operator::And(t, E::Action(Action::Print)));
+            out.push((format!("and16-{}", k), d, t));
+        }
+    }
+    out
 }
 
 /// Systematic sweep for NON-INJECTIVE resource keys (C10, C11, C04, C15): pairs of requests that are
